@@ -16,6 +16,11 @@ def run(ctx):
         ic.rule_clean_suspension(ctx, cfg, r4)
         r6 = ctx.rule("R07.6" + sfx, "bytes handed back at a suspension leave no bits behind: the saved bit buffer is masked to the lowered num_bits", floor=4, config=cfg)
         ic.rule_handback_mask(ctx, cfg, r6)
+        r8 = ctx.rule("R07.8" + sfx, "a state that hands look-ahead bytes back inside the decode loop masks bit_buf to the lowered num_bits", floor=1, config=cfg)
+        ic.rule_handback_mask_arms(ctx, cfg, r8)
         r5 = ctx.rule("R07.5" + sfx, "multi-byte fields (zlib trailer, stored-block header) are collected through a persisted counter, one byte per step", floor=6, config=cfg)
         ic.rule_counted_bytes(ctx, cfg, r5)
         ic.rule_counted_bytes(ctx, cfg, r5, arm="RawHeader", limit=4, acc_field=None)
+    # the streaming wrapper: the window hand-off between calls (a later call never abandons the 32 KiB window for the caller's buffer)
+    from rules import c13
+    c13.run_cfg(ctx, "H1", only=("R13.8", "R13.6"), prefix="R07.7/")
